@@ -1,3 +1,4 @@
+import StockpylModel.Props.MP
 import StockpylModel.Lemmas.Sim
 /-!
 # C02 — backorders, inventory level and service measures stay mutually consistent
